@@ -227,6 +227,8 @@ def build_from(spec, integral_scale=None):
     kw.update(spec["opt"])
     if integral_scale is not None:
         kw["integral_scale"] = integral_scale
+    if spec.get("hankel_kw") is not None:
+        kw["hankel_kw"] = dict(spec["hankel_kw"])  # numerical setting of the Hankel transform
     return cls(**kw)
 
 
@@ -235,7 +237,8 @@ def readback(m, spec0):
             "var": float(m.var), "len_scale": float(m.len_scale),
             "anis": [float(a) for a in m.anis], "angles": [float(a) for a in m.angles],
             "nugget": float(m.nugget), "opt": {o: float(getattr(m, o)) for o in m.opt_arg},
-            "rescale": float(m.rescale), "geo_scale": float(m.geo_scale)}
+            "rescale": float(m.rescale), "geo_scale": float(m.geo_scale),
+            "hankel_kw": dict(m.hankel_kw)}
 
 
 LAGS = np.array([0.0, 0.05, 0.3, 0.9, 1.7, 4.0, 11.0])
@@ -1045,6 +1048,19 @@ class Machine:
                     if not close(m.integral_scale_vec, vec, rtol=1e-6):
                         raise Violation("C14.derived.integral_scale_vec", after=after)
                 ctx.probe("integral_scale_compared")
+            if self.obs % 4 == 1 or after in ("dim", "hankel_kw", "rescale") or \
+                    str(after).startswith("opt:"):
+                ks = np.array([0.05, 0.4, 1.3, 3.0])
+                try:
+                    a, b = m.spectral_density(ks), direct.spectral_density(ks)
+                    a2, b2 = m.spectral_rad_pdf(ks), direct.spectral_rad_pdf(ks)
+                except Exception:
+                    a = b = a2 = b2 = None
+                if a is not None and np.all(np.isfinite(b)) and np.all(np.isfinite(b2)):
+                    if not close(a, b, rtol=1e-7) or not close(a2, b2, rtol=1e-7):
+                        raise Violation("C14.direct_equal.spectrum", after=after,
+                                        maxdiff=maxdiff(a, b))
+                    ctx.probe("spectrum_compared")
             pts = self._points(m)
             a, b = m.isometrize(pts), direct.isometrize(pts)
             if not close(a, b, rtol=1e-9):
